@@ -11,38 +11,6 @@ import KamalProxy.Proofs.Control
 namespace KamalProxy.C11
 open KamalProxy
 
-/-- pause controller states the code can produce: the release channel exists exactly while
-    paused, and only the stopped state carries a message -/
-def PauseOK (p : Pause) : Prop :=
-  (p.st = .paused → p.hasChan = true) ∧ (p.st ≠ .paused → p.hasChan = false) ∧ (p.st ≠ .stopped → p.msg = [])
-
-theorem pauseOK_init : PauseOK Pause.init := by simp [PauseOK, Pause.init]
-
-theorem pauseOK_pauseCtl (p : Pause) (fa : Int) : PauseOK (pauseCtl p fa) := by
-  unfold PauseOK pauseCtl
-  refine ⟨fun _ => ?_, fun h => absurd rfl h, fun _ => rfl⟩
-  by_cases h : p.st ≠ .paused || !p.hasChan
-  · simp only [h, if_true]
-  · simp only [h, Bool.false_eq_true, if_false]
-    simp only [ne_eq, Bool.or_eq_true, decide_eq_true_eq, Bool.not_eq_eq_eq_not, Bool.not_true, not_or,
-      Decidable.not_not, Bool.not_eq_false] at h
-    exact h.2
-
-theorem pauseOK_setStateCtl {p p' : Pause} {st : PauseSt} {msg : Bytes} (hp : PauseOK p)
-    (hst : st ≠ .paused) (hm : st ≠ .stopped → msg = []) (h : setStateCtl p st msg = some p') : PauseOK p' := by
-  unfold setStateCtl at h
-  split at h
-  · split at h
-    · cases h; exact ⟨fun h => absurd h hst, fun _ => rfl, hm⟩
-    · cases h
-  · rename_i hne
-    cases h
-    refine ⟨fun h => absurd h hst, fun _ => ?_, hm⟩
-    simp only [ne_eq, Bool.and_eq_true, bne_iff_ne, decide_eq_true_eq, not_and] at hne
-    by_cases hps : p.st = .paused
-    · have := hne (by rw [hps]; exact fun e => hst e.symm); exact absurd hps this
-    · exact hp.2.1 hps
-
 /-- `stop` and `resume` never close a nil channel on a pause controller the code can produce
     (this is the F4 repair: a restored paused controller has its channel). -/
 theorem setStateCtl_isSome {p : Pause} (hp : PauseOK p) (st : PauseSt) (msg : Bytes) :
@@ -200,6 +168,19 @@ theorem C11_reachable_roundtrip (good : List (Bytes × Bytes)) (cmds : List Cmd)
   have rt := C11_list_roundtrip good (runCore cmds).svcs hi.good.nodup hi.good.pfx hr hi.synced
   exact ⟨rt, fun cont => C11_restart_invisible_partial good (save (runCore cmds)) rfl rt cont⟩
 
+
+/-- **C11 for every command history, with the hypotheses reduced to what the code does not guarantee.** Pause controllers
+    are well-formed and target names valid in every reachable state (`soundC_runCore`), so what remains of `Restorable` is:
+    `Service.initialize` on the persisted options succeeds with the same certificate-manager decision (what F21 histories
+    violate), and no rollout load balancer is empty (an empty rollout list is not restored as a load balancer). -/
+theorem C11_reachable_roundtrip_min (good : List (Bytes × Bytes)) (cmds : List Cmd)
+    (hinit : ∀ v ∈ (runCore cmds).svcs,
+      initService v.opts ⟨good.contains (v.opts.tlsCertPath, v.opts.tlsKeyPath), true, true⟩ = .ok v.certMgr)
+    (hro : ∀ v ∈ (runCore cmds).svcs, v.rollout ≠ some []) :
+    (restoreCore good (save (runCore cmds)).file).svcs = (runCore cmds).svcs :=
+  (C11_reachable_roundtrip good cmds fun v hv =>
+    have hs := soundC_runCore cmds v hv
+    ⟨hs.1, hs.2.1, fun ts hts => ⟨fun e => hro v hv (e ▸ hts), hs.2.2 ts hts⟩, hinit v hv⟩).1
 
 instance (p : Pause) : Decidable (PauseOK p) := by unfold PauseOK; exact inferInstance
 
